@@ -36,6 +36,8 @@ def gen_cases(rng, tier, corr, stats, kshares, maxshares, kind):
     # --- masked AEAD, every tape behaviour, sizes around the rates
     for v, (klen, rate) in gen.AEAD_VARIANTS.items():
         lens = [(0, 0), (1, rate - 1), (rate, rate), (rate + 1, 2 * rate + 1), (5, 3 * rate), (33, 64)]
+        # final partial blocks of every size (the masked code loads/stores/replaces partial words), a few per run
+        lens += [(rng.randrange(0, 2 * rate), rate * rng.randrange(0, 3) + r) for r in rng.sample(range(1, rate), min(4, rate - 1))]
         if not q:
             lens += [(a, p) for a in (0, rate - 1, 2 * rate, 70) for p in (1, rate + 3, 200, 1000)]
         for (alen, plen) in lens:
@@ -142,7 +144,7 @@ def run(res, tier, seed, replay=None):
     driver = common.build_driver()
     if tier == "quick":
         # ("default", (3, 2, 3)): the x86-64 assembly with 24-byte masked words (the `#elif ASCON_MASKED_MAX_SHARES >= 3` bodies)
-        configs = [("default", None), ("default", (3, 2, 3)), ("c64", (3, 3, 3)), ("c32", (2, 2, 2)), ("c32", (4, 3, 4))]
+        configs = [("default", None), ("default", (3, 2, 3)), ("c64", (3, 3, 3)), ("c64", (4, 1, 4)), ("c32", (2, 2, 2)), ("c32", (4, 3, 4))]
     else:
         configs = [("default", None), ("default", (2, 1, 2)), ("default", (3, 2, 3)), ("default", (3, 3, 4)), ("default", (4, 4, 4)),
                    ("c64", (2, 2, 2)), ("c64", (3, 3, 3)), ("c64", (4, 1, 4)), ("c64", (3, 2, 4)), ("c64", (4, 4, 4)),
